@@ -447,7 +447,7 @@ class Simulation:
         self._summary = self._build_summary()
         return self._summary
 
-    def _execute_until(self, end_time_ns: int) -> None:
+    def _execute_until(self, end_time_ns: int, *, stop_at_horizon: bool = False) -> None:
         """Run the pop-invoke-push loop until time exceeds end_time_ns.
 
         This is the extracted inner loop shared by ``_run_loop_fast`` (normal
@@ -458,12 +458,18 @@ class Simulation:
         When ``_event_router`` is set, produced events are passed through the
         router which separates local events (returned to push) from
         cross-partition events (appended to an outbox as a side-effect).
+
+        With ``stop_at_horizon`` the loop never pops an event scheduled after
+        ``end_time_ns``: a partition must not move its clock past the window
+        barrier, or cross-partition events that arrive at the barrier with an
+        earlier timestamp would be discarded as being in the past.
         """
         heap = self._event_heap
         clock = self._clock
         heap_pop = heap.pop
         heap_push = heap.push
         heap_has_events = heap.has_events
+        heap_peek = heap.peek
         clock_update = clock.update
         current_time = self._current_time
         events_processed = self._events_processed
@@ -471,6 +477,8 @@ class Simulation:
         router = self._event_router
 
         while heap_has_events() and current_time.nanoseconds <= end_time_ns:
+            if stop_at_horizon and heap_peek().time.nanoseconds > end_time_ns:
+                break
             event = heap_pop()
 
             if event._cancelled:
@@ -540,7 +548,7 @@ class Simulation:
 
         with _active_sim_context(self._event_heap, self._clock):
             with _active_debugger_context(None):
-                self._execute_until(window_end.nanoseconds)
+                self._execute_until(window_end.nanoseconds, stop_at_horizon=True)
 
     def _build_summary(self) -> SimulationSummary:
         """Build a SimulationSummary from current state."""
